@@ -82,7 +82,7 @@ def canon(exec_lines):
     return '\n'.join(out)
 
 
-def run_net(prop, tier, seed, profiles, rule, assumptions, models=(), level='model_checking', dlimpl=(), satimpl=None, lraimpl=None, cache=None):
+def run_net(prop, tier, seed, profiles, rule, assumptions, models=(), level='model_checking', dlimpl=(), satimpl=None, lraimpl=None, cache=None, release_too=False):
     """profiles: list of (profile, executions_quick, executions_thorough, max_ops)"""
     ev = Evidence(prop, tier, seed, level)
     ev.cov['rule'] = rule
@@ -125,6 +125,23 @@ def run_net(prop, tier, seed, profiles, rule, assumptions, models=(), level='mod
                                     env={'VPROP': prop}, describe_fn=describe)
             if v:
                 break
+        # the same seeded histories in a build without assertions (NDEBUG): what a failed assertion hides there is judged by
+        # the contracts on the values
+        if release_too and not ev.violations:
+            vlib.build_repo('rel', targets=['smt'])
+            rdrv = vlib.build_driver('net_driver', 'rel')
+            for i, (profile, nq, nt, max_ops) in enumerate(profiles):
+                nexec = max(10, (nq if tier == 'quick' else nt) // 2)
+                path = os.path.join(rd, '%s_rel.ndjson' % profile)
+                rc, out = vlib.run([rdrv, 'gen', profile, str(seed * 1000 + 500 + i), str(nexec), path, str(max_ops)], timeout=900, check=False)
+                if rc not in (0, 3) and not (rc < 0 or rc >= 128):
+                    raise vlib.CheckError('net_driver (rel) failed rc=%d: %s' % (rc, out[-2000:]))
+                lines = vlib.read_lines(path)
+                if (rc < 0 or rc >= 128) and not (lines and '"e":"abort"' in lines[-1]):
+                    lines.append(json.dumps({'e': 'abort', 'what': 'driver killed, rc=%d' % rc}, separators=(',', ':')))
+                if vlib.validate_batch(ev, prop, 'NetworkTrace', lines, signature, profile + '-rel', timeout=1700,
+                                       env={'VPROP': prop}, describe_fn=describe):
+                    break
         # the corpus of recorded call sequences (counterexamples of the implementation-shaped models, earlier findings)
         import glob
         for f in sorted(glob.glob(os.path.join(vlib.VERIF, 'problems', 'net_*.ndjson'))):
